@@ -130,6 +130,15 @@ CLAIMS = {
              "subprocesses started with PYTHONHASHSEED in 4 (thorough 32) seeds and TLC requires identical canonical dumps.",
         note="trusted: TLC, the canonical dump (anonymous subquery names and the order they induce are canonicalised, as the statement allows); "
              "determinism across seeds is a differential check of the code against itself - the specification contributes the accessor model"),
+    "C02": dict(
+        design="5/C02, 3.2, A.5",
+        technique="TLA+ model checking (TLC) of Col.tla (resolution by name through the alias map = dataflow by index) + TLC-generated programs rendered under expression forms and analysed by the real code + TLC trace validation (Trace_Col re-takes the program's build steps through the spec's actions and compares the observed pairs with Flow)",
+        text="Col.tla builds a data-moving statement (tables and derived tables in one FROM scope, items over 0-2 references by INDEX, "
+             "wildcards, explicit column list, UNION ALL branch, metadata knowledge) and defines Flow by index; TLC proves that resolving the "
+             "rendered qualifiers BY NAME through the alias map (intended precedence) yields Flow for every valid program, and prints the "
+             "programs; each is rendered (expression forms: function, cast, case, arithmetic, window, parenthesised, nested; join styles) and the "
+             "(source, target) pairs the real analyser reports are decided by Trace_Col.",
+        note="trusted: TLC, sqlfluff as parser, the renderer harness/render_col.py; one FROM scope with derived tables one level deep (deeper nesting is Stmt.tla's table-level business); expression forms are enumerated by the renderer"),
 }
 
 NOT_YET = "check not built yet in this round; planned as described in DESIGN.md section 5"
